@@ -53,6 +53,9 @@ type lact struct {
 	last              <-chan struct{}
 	cancel            context.CancelFunc
 	cancelled         bool
+	evals             int // predicate evaluations so far (Wait actors)
+	stepEvals         int // predicate evaluations during the last [3 i] event of this actor
+	lastRes           int // result of the last evaluation: 0 false, 1 true, 2 error
 }
 
 type sys struct {
@@ -140,6 +143,15 @@ func (s *sys) pred(l *lact) func(broadcast func(), getWaitCh func() <-chan struc
 			}
 		}
 		l.parkExit = l.slow && !done && err == nil
+		l.evals++
+		switch {
+		case err != nil:
+			l.lastRes = 2
+		case done:
+			l.lastRes = 1
+		default:
+			l.lastRes = 0
+		}
 		return done, err
 	}
 }
@@ -295,7 +307,9 @@ func (s *sys) exec(ev []uint64) (obs []uint64, ok bool) {
 		if len(ev) != 2 || i >= len(s.las) || s.statusOf(s.las[i]) != 1 || s.held() {
 			return nil, false
 		}
+		before := s.las[i].evals
 		s.c.Step(s.stepActor(s.las[i]))
+		s.las[i].stepEvals = s.las[i].evals - before
 	case 4:
 		i := int(ev[1])
 		if len(ev) != 2 || i >= len(s.las) || s.las[i].kind != kWait || s.las[i].pk > 3 {
@@ -364,11 +378,20 @@ func b2u(b bool) uint64 {
 
 // gen picks the next event among those the implementation allows now.
 func (s *sys) gen(r *rand.Rand, cfg genCfg) []uint64 {
-	var gates, exits, holders, cancellable []int
+	// cgates / ugates: Wait calls parked at their HoldLock gate (before a predicate evaluation) whose context is /
+	// is not yet cancelled: "cancelled while queueing for the lock, then the section runs" in all three predicate outcomes
+	var gates, exits, holders, cancellable, cgates, ugates []int
 	for i, l := range s.las {
 		switch s.statusOf(l) {
 		case 1:
 			gates = append(gates, i)
+			if l.kind == kWait && l.pk <= 3 {
+				if l.cancelled {
+					cgates = append(cgates, i)
+				} else {
+					ugates = append(ugates, i)
+				}
+			}
 		case 6:
 			holders = append(holders, i)
 		case 7:
@@ -389,7 +412,11 @@ func (s *sys) gen(r *rand.Rand, cfg genCfg) []uint64 {
 		if r.IntN(25) == 0 {
 			pk = 4 + uint64(r.IntN(2))
 		}
-		return []uint64{2, pk, uint64(r.IntN(5)), b2u(r.IntN(12) == 0), b2u(r.IntN(4) == 0)}
+		k := uint64(r.IntN(5))
+		if r.IntN(4) == 0 {
+			k = s.g.Load() // the predicate fires (true / error) on the current value
+		}
+		return []uint64{2, pk, k, b2u(r.IntN(12) == 0), b2u(r.IntN(4) == 0)}
 	}
 	for tries := 0; tries < 200; tries++ {
 		x := r.IntN(100)
@@ -406,9 +433,18 @@ func (s *sys) gen(r *rand.Rand, cfg genCfg) []uint64 {
 			case x < 90 && room:
 				return wait()
 			case x >= 90 && len(cancellable) > 0:
+				if len(ugates) > 0 && r.IntN(2) == 0 {
+					return []uint64{4, uint64(ugates[r.IntN(len(ugates))])} // cancelled while queueing behind the holder
+				}
 				return []uint64{4, uint64(cancellable[r.IntN(len(cancellable))])}
 			}
 			continue
+		}
+		if len(cgates) > 0 && r.IntN(3) == 0 {
+			return []uint64{3, uint64(cgates[r.IntN(len(cgates))])}
+		}
+		if len(ugates) > 0 && r.IntN(12) == 0 {
+			return []uint64{4, uint64(ugates[r.IntN(len(ugates))])}
 		}
 		switch {
 		case x < 20 && room:
@@ -462,6 +498,35 @@ func (s *sys) count(ev, obs, prev []uint64) {
 			if op == 0 {
 				s.w.Count("ev.client.with_broadcast", 1)
 				break
+			}
+		}
+	}
+	if ev[0] == 3 && int(ev[1]) < len(s.las) {
+		if l := s.las[ev[1]]; l.kind == kWait && l.pk <= 3 {
+			// the critical section of a Wait call ran: what did the predicate return, was the context already cancelled
+			// (the call was parked at the gate when the cancellation came), and what did Wait do with it
+			if l.stepEvals != 1 {
+				s.w.Count("sit.wait_section.evaluations_not_one", 1)
+			} else {
+				where := "sit.wait_section.not_cancelled"
+				if l.cancelled {
+					where = "sit.wait_section.cancelled_at_gate"
+				}
+				s.w.Count(where+[3]string{".pred_false", ".pred_true", ".pred_error"}[l.lastRes], 1)
+				if l.cancelled && int(ev[1]) < int(obs[1]) {
+					switch c := obs[2+ev[1]]; {
+					case l.lastRes == 2 && c >= 10:
+						s.w.Count("obs.wait_pred_error_returned_although_cancelled", 1)
+					case l.lastRes == 1 && c == 3:
+						s.w.Count("obs.wait_nil_although_cancelled", 1)
+					case l.lastRes == 0 && c == 4:
+						s.w.Count("obs.wait_canceled_after_false_section", 1)
+					case l.lastRes == 0 && c == 7:
+						s.w.Count("obs.wait_cancelled_false_section_at_exit_gate", 1)
+					default:
+						s.w.Count("obs.wait_cancelled_section_other_outcome", 1)
+					}
+				}
 			}
 		}
 	}
